@@ -14,6 +14,7 @@ def handle (line : String) : String :=
   | "NDIST" :: rest => Dist.ndistLine rest
   | "TDIST" :: rest => Dist.tdistLine rest
   | "HASH" :: rest => Hash.hashLine rest
+  | "HASHM" :: rest => Hash.hashmLine rest
   | "DIFF" :: rest => Diff.diffLine rest
   | "DIFFX" :: rest => Diff.diffxLine rest
   | "DIFFO" :: rest => DiffO.diffoLine rest
